@@ -111,7 +111,9 @@ BApply(S, c, cmd) ==
                  \* before_capture / captured goes into its select and is served only if a push left it a token
                  noRetry == /\ ss.parked /\ ss.blk.on /\ ss.gate \in {"before_capture", "captured"} /\ ~ss.blk.tok
                             /\ On("D_ONLY_PUSH_COMMANDS_WAKE_BLOCKED_CLIENTS")
-             IN  IF ~ss.blk.on THEN BRes(S1, [t |-> "ctl"], {}, <<>>)
+             \* (a client that never reached its gate - e.g. it was to be held at after_wake and nothing woke it - is not
+             \*  waiting at the gate: releasing it changes nothing)
+             IN  IF ~ss.blk.on \/ ~ss.parked THEN BRes(S1, [t |-> "ctl"], {}, <<>>)
                  ELSE IF ss.blk.ub # "none" THEN Finish(S, [S1 EXCEPT !.conn[c].blk = NoBlk], [t |-> "ctl"], {}, <<[c |-> c, r |-> EndReply(ss.blk.ub)]>>, "release")
                  ELSE IF Attempt(S1, c).r.t # "nil" /\ noRetry THEN BRes(S1, [t |-> "ctl"], {"D_ONLY_PUSH_COMMANDS_WAKE_BLOCKED_CLIENTS"}, <<>>)
                  ELSE IF Attempt(S1, c).r.t # "nil" THEN Finish(S, S1, [t |-> "ctl"], {}, <<>>, "release")
